@@ -2,7 +2,7 @@
 # usage: tools/soak.sh <first seed> <last seed> [tier] [budget] [props...]
 # Runs every claimed check under each VERIF_SEED and prints one line per (property, seed); any exit != 0 is shown with its tail.
 A=$1; B=$2; TIER=${3:-quick}; BUDGET=${4:-45}; shift 4 2>/dev/null
-PROPS=${*:-C03 C04 C05 C06 C07 C09 C10 C11 C13 C14 C15 C17 C18}
+PROPS=${*:-C03 C04 C05 C06 C07 C09 C10 C11 C12 C13 C14 C15 C16 C17 C18}
 cd "$(dirname "$0")/.." || exit 2
 for seed in $(seq "$A" "$B"); do
   for p in $PROPS; do
